@@ -196,6 +196,19 @@ impl MmioDevice for Dev {
                 }
                 s.q().pfn = v;
                 let q = s.qsel as u16;
+                if v != 0 && s.q().align != 4096 {
+                    // QueueAlign is a per-queue register (and cleared with the queue): the driver lays the
+                    // used ring out at the next 4096-byte boundary, so that is what this queue must have
+                    // been told when its page frame is registered
+                    let al = s.q().align;
+                    for tag in ["C02", "C04", "C06"] {
+                        s.protocol_errors.push(format!("[{}] legacy QueuePFN registered for queue {} while the device's QueueAlign for that queue is {}: the device places the used ring elsewhere than the driver", tag, q, al));
+                    }
+                }
+                if v == 0 {
+                    s.q().align = 0;
+                    s.q().num = 0;
+                }
                 if v != 0 {
                     // legacy layout (§2.7.2 legacy): descriptors, available ring, padding to
                     // QueueAlign, used ring
@@ -366,7 +379,11 @@ fn mmio_case(d: Drv, offered: u64, version: u32, fail: usize, id: String, prop: 
     // the reset at drop is visible as a status write of 0
     oracle_quiesced(&mut c, &all, true);
     for e in st.borrow().protocol_errors.iter() {
-        c.fail(format!("virtio-mmio device: {}", e));
+        if e.starts_with("[C") {
+            c.fail(e.clone());
+        } else {
+            c.fail(format!("virtio-mmio device: {}", e));
+        }
     }
     for v in mmio::with(|b| std::mem::take(&mut b.violations)) {
         c.fail(format!("mmio bus: {}", v));
